@@ -391,7 +391,7 @@ impl Prop for C17 {
         }
     }
     fn worker(&self, ctx: &mut WorkerCtx) {
-        let total = if ctx.quick { 3_000 } else { 60_000 };
+        let total = if ctx.quick { 6_000 } else { 200_000 };
         let n = ctx.share(total);
         ctx.drive(1, n, 60, &gen_case, &check, &reduce);
     }
